@@ -114,6 +114,22 @@ func TextDesc(ascii string) []byte {
 	return TextDescRaw(uint32(len(ascii)+1), append([]byte(ascii), 0), true)
 }
 
+// TextDescFull is a complete v2 textDescription: the ASCII form, a Unicode form (UTF-16BE, with its
+// own count and terminating null) that need not say the same, and an empty ScriptCode form.
+func TextDescFull(ascii, uni string) []byte {
+	d := TextDescRaw(uint32(len(ascii)+1), append([]byte(ascii), 0), false)
+	u := utf16.Encode([]rune(uni))
+	d = append(d, 0, 0, 0, 0) // Unicode language code
+	var n [4]byte
+	binary.BigEndian.PutUint32(n[:], uint32(len(u)+1))
+	d = append(d, n[:]...)
+	for _, c := range u {
+		d = append(d, byte(c>>8), byte(c))
+	}
+	d = append(d, 0, 0)
+	return append(d, make([]byte, 2+1+67)...)
+}
+
 // TextDescRaw lets the ASCII count be declared independently of the bytes.
 func TextDescRaw(count uint32, asciiBytes []byte, tail bool) []byte {
 	d := []byte{'d', 'e', 's', 'c', 0, 0, 0, 0, 0, 0, 0, 0}
